@@ -43,7 +43,7 @@ fn schema(analyzer: &str) -> SchemaSpec {
 }
 
 const WORDS: &[&str] = &["rust", "rust", "rust", "ruby", "ruby", "rubber", "run", "runs", "running", "runner", "rug", "rugs", "sea", "seal", "search", "search", "engine", "fast", "fox", "the", "a", "Rust", "RUBY", "rüst", "r", "ru"];
-const TAGS: &[&str] = &["red", "Red", "RED", "rose", "ruby", "green", "re", "r", "Éa", "two words"];
+const TAGS: &[&str] = &["red", "Red", "RED", "rose", "ruby", "green", "re", "r", "Éa", "éa", "ÉB", "éb", "two words"];
 
 fn word(many: bool) -> BoxedStrategy<String> {
   if many {
@@ -144,7 +144,7 @@ impl Property for C22 {
     let fuzzy = (1u8..4, 0usize..3, select(vec![50usize, 50, 3, 0, 300]), select(vec![0usize, 2, 3])).prop_map(|(e, p, x, m)| json!({"max_edits": e, "prefix_length": p, "max_expansions": x, "min_length": m}));
     (analyzer, any::<bool>(), prop::bool::weighted(0.2))
       .prop_flat_map(move |(analyzer, on_tag, many)| {
-        let prefixes: Vec<&'static str> = if on_tag { vec!["", "r", "re", "R", "RE", "red", "ro", "g", "é", "two", "x"] } else { vec!["", "r", "ru", "ru", "Ru", "RU", "rus", "rub", "run", "runn", "rust", "s", "se", "sea", "the", "th", "rü", "rua", "ruab", "x"] };
+        let prefixes: Vec<&'static str> = if on_tag { vec!["", "r", "re", "R", "RE", "red", "ro", "g", "é", "É", "Éa", "ÉB", "éB", "two", "x"] } else { vec!["", "r", "ru", "ru", "Ru", "RU", "rus", "rub", "run", "runn", "rust", "s", "se", "sea", "the", "th", "rü", "rua", "ruab", "x"] };
         (
           Just(analyzer.to_string()),
           vec(doc(many), if many { 6..40 } else { 3..30 }),
